@@ -3,6 +3,7 @@ package checks
 import (
 	"bytes"
 	"fmt"
+	"github.com/go-i2p/common/data"
 
 	"github.com/go-i2p/common/signature"
 
@@ -72,4 +73,45 @@ func c19SignatureSweep(r *core.Run) {
 			}
 		}
 	})
+}
+
+// c19IntegerTwins: data.ReadInteger (value, remainder) and data.NewInteger (pointer, remainder, error) are the same
+// reader in two shapes - also on input that is too short, where the value-returning twin has no error to give and
+// hands back what there is. For every width -1..9 x every input length 0..width+2: same bytes, same remainder; and
+// the error of the pointer twin says nothing the value twin's result does not (error <=> incomplete value).
+func c19IntegerTwins(r *core.Run) {
+	pool := refmodel.Fill("inttwins", 1, 16)
+	for n := -1; n <= 9; n++ {
+		for l := 0; l <= 11; l++ {
+			in := append([]byte(nil), pool[:l]...)
+			r.Evaluations.Add(1)
+			var i data.Integer
+			var pi *data.Integer
+			var rem1, rem2 []byte
+			var err error
+			if pan, _ := core.Guard(func() {
+				i, rem1 = data.ReadInteger(in, n)
+				pi, rem2, err = data.NewInteger(in, n)
+			}); pan {
+				continue // C04's
+			}
+			var pb []byte
+			if pi != nil {
+				pb = []byte(*pi)
+			}
+			cs := core.Case{Kind: "inttwins", Args: map[string]string{"width": fmt.Sprint(n), "len": fmt.Sprint(l)}}
+			cls := "complete-input"
+			if n < 1 || n > 8 {
+				cls = "invalid-width"
+			} else if l < n {
+				cls = "short-input"
+			}
+			if !bytes.Equal([]byte(i), pb) || !bytes.Equal(rem1, rem2) {
+				r.Violate("C19|data.ReadInteger~data.NewInteger|"+cls+"|result", fmt.Sprintf("width %d, %d input bytes: ReadInteger -> (%x, remainder %d bytes), NewInteger -> (%x, remainder %d bytes, err %v)", n, l, []byte(i), len(rem1), pb, len(rem2), err), cs)
+			} else if (err != nil) && len(i) == n && n >= 1 && n <= 8 {
+				r.Violate("C19|data.ReadInteger~data.NewInteger|"+cls+"|acceptance", fmt.Sprintf("width %d, %d input bytes: ReadInteger returns a complete value, NewInteger an error: %v", n, l, err), cs)
+			}
+			r.Traces.Add(1)
+		}
+	}
 }
